@@ -103,7 +103,10 @@ def check_c01(tier):
 
 def check_c02(tier):
     run = run_cases(_tier(tier))
-    recs = flatten(run, lambda r: r["kind"] == "C02" and r["case"]["op"] not in PRED_OPS)
+    # the documented definition must come out in every storage: a disagreement with the specification's
+    # value is reported here whichever signature exhibits it (C01 reports the same records as a
+    # dependence on the storage)
+    recs = flatten(run, lambda r: r["kind"] in ("C02", "C01") and r["case"]["op"] not in PRED_OPS)
     return _finish("C02", tier, run, recs, lambda c: c["op"] not in PRED_OPS)
 
 
